@@ -95,6 +95,18 @@ def serializer_obligations(ctx, facts, rule=None, scope="all"):
     ctx.ob(R("SORT-TAINT"), "serialiser: exactly one HashMap iteration whose order can reach the text", len(iters) == 1, fn=key, site=site, detail=str([callee_name(t["callee"]) for _, t in iters]))
     sorts = [e for e in bs["effects"] if "sort" in e["path"].split("::")[-1]]
     loops = bs["loops"]
+    if len(loops) > 1:
+        # loops that do not write the text (summing up a capacity, copying the entries into the Vec) are not the emitting loop
+        oks_ = [r for r in bs["returns"] if r["cls"][0] == "ok"]
+        acc_ = oks_[0]["cls"][1] if len(oks_) == 1 else None
+        while acc_ is not None and acc_[0] == "conv":
+            acc_ = acc_[1]
+        if acc_ is not None and acc_[0] == "var":
+            writers = {h_: v_ for h_, v_ in loops.items() if any(e["target"][:2] == ("var", acc_[1]) and e["bb"] in body.loops().get(h_, set()) and not e["path"].endswith("deref_mut") for e in bs["effects"])}
+            # an inner loop of the emitting loop also writes the text: keep the outermost
+            outer = {h_: v_ for h_, v_ in writers.items() if not any(h_ != o_ and h_ in body.loops().get(o_, set()) for o_ in writers)}
+            if len(outer) == 1:
+                loops = outer
     if len(iters) == 1 and len(sorts) == 1 and len(loops) == 1:
         ibb = iters[0][0]
         srt = sorts[0]
@@ -102,6 +114,17 @@ def serializer_obligations(ctx, facts, rule=None, scope="all"):
         # the sorted Vec is collect(into_iter(map))
         init = norm(body._resolve_local(vecvar[1]))
         okc = init[0] == "call" and init[1] == "std::iter::Iterator::collect" and init[2][0][0] == "call" and init[2][0][3] == ibb
+        fill = None
+        if not okc and init[0] == "call" and init[1].split("::")[-1] in ("new", "with_capacity") and "Vec" in init[1]:
+            # `let mut v = Vec::new(); v.extend(map)` (or the push loop that is the same thing, purlsa.roll): the only thing
+            # written into the Vec before the sort is that one iteration
+            fills = [e for e in bs["effects"] if e["target"] == vecvar and e["bb"] != srt["bb"] and not e["path"].endswith("deref_mut") and body.dominates(e["bb"], srt["bb"])]
+            if len(fills) == 1 and fills[0]["path"].endswith("::extend") and ("@%d" % ibb) in mark_sites(fills[0]["args"][1]):
+                src_ = fills[0]["args"][1]
+                while src_[0] == "call" and src_[1].endswith("::into_iter") and len(src_[2]) == 1 and src_[3] != ibb:
+                    src_ = src_[2][0]
+                okc = src_[0] == "call" and src_[3] == ibb
+                fill = fills[0]
         ctx.ob(R("SORT-TAINT"), "serialiser: the iteration is collected into the Vec that is sorted", okc, fn=key, site=srt["site"], detail=nshow(init)[:120])
         h, (nb, it, npath) = next(iter(loops.items()))
         src = it
@@ -131,7 +154,7 @@ def serializer_obligations(ctx, facts, rule=None, scope="all"):
             okcmp = ct[0] == "call" and ct[1].endswith("::cmp") and [models_field(x) for x in ct[2]] == [("arg", 2, "0"), ("arg", 3, "0")]
         ctx.ob(R("SORT-TAINT"), "serialiser: comparator = a.0.cmp(&b.0) (algorithm names, total order)", okcmp, fn=key, site=srt["site"], detail=det[:160])
         # no other mutation of the Vec between sort and loop
-        others = [e for e in bs["effects"] if e["target"] == vecvar and e["bb"] not in (srt["bb"],) and not e["path"].endswith("deref_mut")]
+        others = [e for e in bs["effects"] if e["target"] == vecvar and e["bb"] not in (srt["bb"],) and not e["path"].endswith("deref_mut") and e is not fill]
         ctx.ob(R("SORT-TAINT"), "serialiser: the Vec is not reordered after the sort", not others, fn=key, site=site, detail=str([e["path"] for e in others]))
     elif len(iters) == 1 and not sorts and len(loops) == 1:
         # no sort: the order may come from an ordered map the entries are collected into.  BTreeMap iterates in the
@@ -270,36 +293,8 @@ def serializer_obligations(ctx, facts, rule=None, scope="all"):
         return "other:" + show_canon(c)[:80]
 
     def first_flag_guard(bb):
-        """is block bb reached only on the `not the first iteration` side of a loop-carried flag?  (`let mut first = true;
-        for .. { if first { first = false } else { emit } }`): the flag starts true, the loop only ever stores false, and bb
-        lies behind the edge taken when it is false -- the same information as an enumerate() index > 0"""
-        from purlsa import scanact
-        lb = body.loops().get(h, set())
-        st = scanact.state_locals(body, lb)
-        for d in sorted(lb):
-            sl = scanact.switch_local(body, d)
-            if sl is None or sl[1] or sl[0] not in st or d == bb or not body.dominates(d, bb):
-                continue
-            F, _, _, neg = sl
-            info = st[F]
-            inits = [v for v in info["init"]]
-            inside = [scanact.const_state_value(strip(body._rv_term(dd[3]))) for dd in body.defs()[F] if dd[0] in lb and dd[2] == "rv"]
-            if inits != [("bool", True)] or not inside or any(v != ("bool", False) for v in inside):
-                continue
-            edges = {}
-            for (lab, tg) in body.edges(d):
-                if lab == "otherwise" or lab == ("sw", 0):
-                    edges[(lab == "otherwise") != neg] = tg
-            tT, tF = edges.get(True), edges.get(False)
-            if tT is None or tF is None or tT == tF:
-                continue
-            single = lambda b_: len([p_ for p_ in body.preds()[b_] if not body.is_cleanup(p_)]) == 1  # noqa: E731
-            # the flag is cleared on the `first` side only, and on every way from there to the next iteration
-            defs_in = [dd[0] for dd in body.defs()[F] if dd[0] in lb and dd[2] == "rv"]
-            cleared = single(tT) and all(b_ == tT or body.dominates(tT, b_) for b_ in defs_in) and any(h not in body.reachable_from(tT, avoid={b_}) or b_ == tT for b_ in defs_in)
-            if cleared and single(tF) and (tF == bb or body.dominates(tF, bb)):
-                return True
-        return False
+        """bb is reached only on the `not the first iteration` side of a loop-carried flag (models.first_flag_side)"""
+        return models.first_flag_side(body, h, bb) is False
 
     def prevalidated(e):
         """`if !self.algorithms.values().all(valid) { return Err(..) }` before the loop, with valid(s) = even length and hex
@@ -501,7 +496,12 @@ def rule_agree_parser(ctx):
     body = bs["body"]
     loops = bs["loops"]
     if len(loops) != 1:
-        raise AnchorError("checksum parser: one loop expected", key)
+        # further loops that do not touch the map (counting the separators for the capacity) are not the parser's loop
+        mapping = [e for e in bs["effects"] if "HashMap" in e["path"] and e["path"].split("::")[-1] in ("insert", "entry")]
+        mains = [h_ for h_ in loops if any(e["bb"] in body.loops().get(h_, set()) for e in mapping)]
+        if len(mains) != 1:
+            raise AnchorError("checksum parser: one loop expected", key)
+        loops = {mains[0]: loops[mains[0]]}
     h, (nb, it, npath) = next(iter(loops.items()))
     item = models._region(("some", ("call", npath, (it,), nb)))
     CITEM = ("Item", ",", ("Input", 1))
